@@ -14,6 +14,7 @@ import ALV.Lemmas.C19Float
 import ALV.Lemmas.C19FloatNeg
 import ALV.Lemmas.C19Twins
 import ALV.Lemmas.C19Misc
+import ALV.Lemmas.C19FloatBits
 import Mathlib.Tactic.NormNum
 import ALV.Common.Audit
 
@@ -696,6 +697,118 @@ example : mapRun (fun x : Nat => if x < 3 then Except.ok (x + 1) else .error "In
     = ([1, 2], some "IndexError") := by decide +kernel
 example : mcZeroAt (.strm [(1:Rat), 2, 3]) (.strm [5, 0, 0, 0]) (.num 1) 9 = some 1 := by decide +kernel
 example : resShort [(1 : Rat)] 3 = true ∧ resampleSpec [(1 : Rat)] (.num (1/2)) 3 0 5 = ([], true) := by decide +kernel
+
+/-! ## the bit-level float helpers, as far as they can be proved without a theory of IEEE arithmetic
+
+`floatOps` builds `%`, `int()`, `math.ceil` from the bit pattern: `fDecode x = (sign, m, e)` with
+exact value `tval sign m e = ± m·2^e`, then INTEGER arithmetic on the triple, then `fExact` back.
+Proved here, over ℚ (any ordered field with a floor): the integer arithmetic computes truncation,
+ceiling and the C `fmod` remainder of the exact values; `float_rem` (written once, `pyModGen`) is
+`fmodR` on exact values, i.e. the floored modulo when the one addition is not rounded.
+TRUSTED (tied bit for bit on every float case, not proved): `fDecode` reads sign / exponent /
+fraction fields of `Float.toBits` correctly; `fExact` (`Float.ofNat`, `Float.scaleB` on a value
+with ≤ 53 significant bits) returns the float with that exact value; Lean's `Float` `==`, `<` are
+the comparisons of the exact values and `+` is the IEEE round-to-nearest-even sum — a monotone
+rounding fixing `0` and `m`, which is what C19.float.3/4/3n/4n ask of `rnd`. -/
+
+/-- **C19.bits.1** `fAbsTrunc m e` = (⌊m·2^e⌋, "m·2^e is an integer"). -/
+theorem float_abs_trunc (m : Nat) (e : Int) :
+    (((fAbsTrunc m e).1 : Nat) : Int) = ⌊(aval m e : K)⌋ ∧
+    ((fAbsTrunc m e).2 = true ↔ ((⌊(aval m e : K)⌋ : Int) : K) = aval m e) :=
+  ⟨fAbsTrunc_fst m e, fAbsTrunc_snd m e⟩
+
+/-- **C19.bits.2** `int(x)` of a float: OverflowError / ValueError for inf / nan (`fNonFinite`),
+otherwise the truncation toward zero (the exact model's `pyInt`) of the exact value. -/
+theorem float_trunc_on_decoded (x : Float) :
+    fTrunc x = match fDecode x with
+      | none => fNonFinite x
+      | some (neg, m, e) => .ok (pyInt (tval neg m e : ℚ)) := by
+  cases h : fDecode x with
+  | none => simp only [fTrunc, h]
+  | some t =>
+    obtain ⟨neg, m, e⟩ := t
+    simp only [fTrunc, h]
+    rw [truncT_eq (K := ℚ)]
+    rfl
+
+/-- **C19.bits.3** `math.ceil(x)` of a float: the ceiling (the model's `pyCeil`) of the exact value. -/
+theorem float_ceil_on_decoded (x : Float) :
+    fCeil x = match fDecode x with
+      | none => fNonFinite x
+      | some (neg, m, e) => .ok (pyCeil (tval neg m e : ℚ)) := by
+  cases h : fDecode x with
+  | none => simp only [fCeil, h]
+  | some t =>
+    obtain ⟨neg, m, e⟩ := t
+    simp only [fCeil, h]
+    rw [ceilT_eq (K := ℚ)]
+    rfl
+
+/-- **C19.bits.4** C `fmod(x, y)` of two finite floats, `y ≠ 0`: the float that `fExact` builds from
+sign, mantissa and exponent of EXACTLY `x - trunc(x/y)·y` (no rounding: the remainder is computed
+in integers on the common exponent). -/
+theorem c_fmod_on_decoded (x y : Float) :
+    match fDecode x, fDecode y with
+    | some (nx, mx, ex), some (ny, my, ey) =>
+      my ≠ 0 → cFmod x y = fExact nx (fmodT mx ex my ey).1 (fmodT mx ex my ey).2 ∧
+        (tval nx (fmodT mx ex my ey).1 (fmodT mx ex my ey).2 : ℚ)
+          = cRemM (tval nx mx ex) (tval ny my ey)
+    | _, _ => True := by
+  cases hx : fDecode x with
+  | none => trivial
+  | some tx =>
+    cases hy : fDecode y with
+    | none => trivial
+    | some ty =>
+      obtain ⟨nx, mx, ex⟩ := tx
+      obtain ⟨ny, my, ey⟩ := ty
+      intro hmy
+      refine ⟨?_, fmodT_value nx ny mx my ex ey⟩
+      simp [cFmod, hx, hy, hmy]
+
+/-- **C19.bits.5** that remainder on exact values: `a - n·m` for an integer `n`, smaller than the
+divisor in absolute value, with the sign of the dividend. -/
+theorem c_fmod_exact (a m : K) (hm : m ≠ 0) :
+    (∃ n : Int, cRemM a m = a - (n : K) * m) ∧ |cRemM a m| < |m| ∧
+    (0 ≤ a → 0 ≤ cRemM a m) ∧ (a ≤ 0 → cRemM a m ≤ 0) := cRemM_props a m hm
+
+/-- **C19.bits.6** Python's float `%` is `float_rem` written once over the operations it uses
+(`pyModGen`), run on binary64 … -/
+theorem float_rem_is_generic (x y : Float) : pyModF x y = pyModGen floatModOps x y := rfl
+
+/-- … and the SAME code over exact values whose one addition is followed by `rnd` is `fmodR rnd` —
+the function of C19.float.3–6 —, hence the sign-adjusted remainder in `[0, m)` resp. `(m, 0]`,
+namely the floored modulo of the exact model, before that final rounding (`rnd = id`);
+a zero divisor raises ZeroDivisionError. -/
+theorem float_rem_exact_instance (rnd : K → K) (a m : K) (hm : m ≠ 0) :
+    pyModGen (exactModOps rnd) a m = .ok (fmodR rnd a m) ∧
+    pyModGen (exactModOps (id : K → K)) a m = .ok (fmod a m) := by
+  simp only [pyModGen_exact, if_neg hm, fmodR_id_ne a m hm, and_self]
+
+theorem float_rem_zero_divisor (rnd : K → K) (a : K) :
+    pyModGen (exactModOps rnd) a 0 = .error "ZeroDivisionError" := by
+  rw [pyModGen_exact, if_pos rfl]
+
+/-- **C19.bits.7** renormalising a mantissa (`fExact` strips trailing zero bits) keeps the value. -/
+theorem float_renormalise_keeps_value (f n : Nat) (k : Int) :
+    (aval (stripZeros f n k).1 (stripZeros f n k).2 : K) = aval n k := stripZeros_value f n k
+
+/-- **C19.bits.8** C19.float.2 instantiated at the operations the float tie runs: every float
+output of every path of `modulo_counter` is `y % m % m` with Python's float `%`. -/
+theorem float_counter_outputs_double_reduced (A M S : Arg Float) (n : Nat) :
+    ∀ x ∈ (mcG floatOps A M S n).1, ∃ y, ∃ m ∈ Arg.vals M, mod2G floatOps y m = .ok x :=
+  mcG_double floatOps A M S n
+
+-- 5·2^-1 = 2.5: truncates to 2 (inexact), -2.5 truncates to -2, ceil(2.5) = 3, ceil(-2.5) = -2
+example : fAbsTrunc 5 (-1) = (2, false) ∧ truncT true 5 (-1) = -2 ∧ ceilT false 5 (-1) = 3 ∧
+    ceilT true 5 (-1) = -2 ∧ fAbsTrunc 5 3 = (40, true) := by decide +kernel
+-- fmod(7·2^0, 1·2^1) = 1·2^0; fmod(5·2^-1, 3·2^-2) = 1·2^-2 (2.5 = 3·0.75 + 0.25)
+example : fmodT 7 0 1 1 = (1, 0) ∧ fmodT 5 (-1) 3 (-2) = (1, -2) := by decide +kernel
+example : (tval true 1 (-2) : ℚ) = -1/4 ∧ cRemM (-5/2 : ℚ) (3/4) = -1/4 := by
+  refine ⟨by norm_num [tval, aval], by decide +kernel⟩
+example : pyModGen (exactModOps rndQuarter) (-1/100 : Rat) 5 = .ok 5 ∧
+    pyModGen (exactModOps (id : Rat → Rat)) (-1/100) 5 = .ok (499/100) := by decide +kernel
+example : stripZeros 6 40 (-3) = (5, 0) := by decide +kernel
 
 end ALV.Props.C19
 
